@@ -28,6 +28,7 @@ UNITS = ("angstrom", "electronvolt", "nanometer", "picosecond", "amu", "kcalmol"
 maxsize = int(sys.argv[1]) if len(sys.argv) > 1 else 300000
 data_dir = os.path.join(os.path.dirname(iodata.__file__), "test", "data")
 tmp = tempfile.mkdtemp()
+__import__("atexit").register(__import__("shutil").rmtree, tmp, True)
 
 
 def numeric_leaves(obj, prefix=""):
